@@ -91,8 +91,21 @@ pub fn run_one(f: &(dyn Fn() + Sync), prefix: &[(u32, u32)], trace: bool) -> (Ex
     crate::crash::set_current(prefix);
     let r = crate::util::catch(|| f());
     crate::crash::clear_current();
+    let mut escaped = r.err();
+    // A panic raised inside the library under test (or the lab's livelock detector firing inside
+    // a library busy-wait) that the harness did not expect is a verdict about the library when the
+    // check says so; any other escaped panic is a harness bug.
+    if let (Some(p), Some(prop)) = (&escaped, crate::util::panic_prop()) {
+        if crate::util::is_driver_panic(p) {
+            chooser::report(crate::engine::Violation::new(prop, "driver-panic", format!("the library panicked on a valid call sequence: {}", p)));
+            escaped = None;
+        } else if p.contains("LAB-LIVELOCK") {
+            chooser::report(crate::engine::Violation::new(prop, "livelock", format!("the library keeps waiting although the device has answered: {}", p)));
+            escaped = None;
+        }
+    }
     let out = chooser::end();
-    (out, r.err())
+    (out, escaped)
 }
 
 pub fn explore(cfg: &DfsConfig, f: &(dyn Fn() + Sync)) -> DfsStats {
